@@ -8,7 +8,7 @@ from .params_replay import fmt_step
 from .session_replay import RES, Injected, SessionReplayer, pval, PNAME
 
 # constants of the specification that mirror the code (flip together with the code)
-CODE = {"Finally": True, "ExactRestore": True, "RawSave": True}
+CODE = {"Finally": True, "ExactRestore": True, "RawSave": True, "KeyedGraph": True}
 
 ATOMIC = {"StartPartialWeight": "partial_weight", "StartInterference": "partial_weight_interference", "StartFitFractions": "fit_fractions"}
 ENTER = {
@@ -25,8 +25,8 @@ def cfg_text(K, PV, depth, max_stack, invs, code=None, view=True):
     code = code or CODE
     b = lambda x: "TRUE" if x else "FALSE"
     s = (
-        "CONSTANTS\n K = %d\n PV = {%s}\n MaxDepth = %d\n MaxStack = %d\n Finally = %s\n ExactRestore = %s\n RawSave = %s\n None = None\n"
-        "INIT Init\nNEXT Next\nCHECK_DEADLOCK FALSE\n" % (K, ",".join(map(str, PV)), depth, max_stack, b(code["Finally"]), b(code["ExactRestore"]), b(code["RawSave"]))
+        "CONSTANTS\n K = %d\n PV = {%s}\n MaxDepth = %d\n MaxStack = %d\n Finally = %s\n ExactRestore = %s\n RawSave = %s\n KeyedGraph = %s\n None = None\n"
+        "INIT Init\nNEXT Next\nCHECK_DEADLOCK FALSE\n" % (K, ",".join(map(str, PV)), depth, max_stack, b(code["Finally"]), b(code["ExactRestore"]), b(code["RawSave"]), b(code.get("KeyedGraph", True)))
     )
     if view:
         s += "VIEW View\n"
